@@ -79,8 +79,15 @@ pub fn check(c: &Case) -> Outcome {
             if !(ssc.clean() && ssc.spans.len() == 1 && ssc.spans[0].start == 0 && ssc.spans[0].end == seq.len()) {
                 return Outcome::Skip("inserted string is not one well-formed sequence");
             }
+            // character boundaries that are not strictly inside a sequence
+            let mut inside = vec![false; text.len() + 1];
+            for sp in &sc.spans {
+                for b in sp.start + 1..sp.end {
+                    inside[b] = true;
+                }
+            }
             let bounds: Vec<usize> = (0..=text.len())
-                .filter(|b| text.is_char_boundary(*b) && !sc.strictly_inside(*b))
+                .filter(|b| text.is_char_boundary(*b) && !inside[*b])
                 .collect();
             let at = bounds[gen::pick(*pos, bounds.len())];
             let mut t2 = String::with_capacity(text.len() + seq.len());
@@ -165,18 +172,22 @@ impl Property for P {
         noesc.uni = 25;
         let n = tier.max_tokens();
         prop_oneof![
-            3 => gen::token_text(clean_mix, n).prop_map(|text| Case::Clean { text }),
-            1 => gen::wild_string(16).prop_map(|t| Case::Clean { text: t.replace('\x1b', "") }),
-            2 => (gen::token_text(noesc, n / 2 + 1), gen::token_text(noesc, n / 2 + 1))
+            30 => gen::token_text(clean_mix, n).prop_map(|text| Case::Clean { text }),
+            10 => gen::wild_string(16).prop_map(|t| Case::Clean { text: t.replace('\x1b', "") }),
+            20 => (gen::token_text(noesc, n / 2 + 1), gen::token_text(noesc, n / 2 + 1))
                 .prop_map(|(x, y)| Case::Add { x, y }),
-            1 => (gen::wild_string(8), gen::wild_string(8)).prop_map(|(x, y)| Case::Add {
+            10 => (gen::wild_string(8), gen::wild_string(8)).prop_map(|(x, y)| Case::Add {
                 x: x.replace('\x1b', ""),
                 y: y.replace('\x1b', "")
             }),
-            3 => (gen::token_text(clean_mix, n), any::<u16>(), seq_strategy())
+            30 => (gen::token_text(clean_mix, n), any::<u16>(), seq_strategy())
                 .prop_map(|(text, pos, seq)| Case::Insert { text, pos, seq }),
-            2 => gen::token_text(Mix::FULL, n).prop_map(|text| Case::Any { text }),
-            2 => gen::wild_string(24).prop_map(|text| Case::Any { text }),
+            20 => gen::token_text(Mix::FULL, n).prop_map(|text| Case::Any { text }),
+            20 => gen::wild_string(24).prop_map(|text| Case::Any { text }),
+            // long strings (a chunked or batched implementation would show)
+            1 => gen::scaled_text_and_width(clean_mix, 3000).prop_map(|(text, _)| Case::Clean { text }),
+            1 => (gen::scaled_text_and_width(clean_mix, 3000), any::<u16>(), seq_strategy())
+                .prop_map(|((text, _), pos, seq)| Case::Insert { text, pos, seq }),
         ]
         .boxed()
     }
